@@ -1,1 +1,268 @@
-pub fn run(_args: &[String]) { unimplemented!() }
+//! C13: the observable output does not depend on (a) the order in which generated
+//! `visit_dependencies` bodies run their statements (hook H2: every permutation for bodies of
+//! <= 5 statements), (b) the order in which roots are exported, (c) running twice.
+
+use std::{
+    collections::{BTreeMap, BTreeSet},
+    sync::Arc,
+};
+
+use serde_json::json;
+use ts_rs::__verif as hooks;
+
+use crate::{
+    common::{
+        arg_value, clear_places, files_of, guarded, permutations, set_place, snapshot, subsets,
+        Report, Scratch, Slice, TypeInfo,
+    },
+    corpus,
+    sched::{closure_of, expected_tree, universe_singles},
+};
+
+fn nth_perm(n: usize, k: usize) -> Vec<usize> {
+    if n <= 1 {
+        return (0..n).collect();
+    }
+    if n <= 5 {
+        let ps = permutations(n);
+        return ps[k % ps.len()].clone();
+    }
+    // larger bodies: rotations, and reversed rotations
+    let rot = k % n;
+    let mut v: Vec<usize> = (0..n).map(|i| (i + rot) % n).collect();
+    if (k / n) % 2 == 1 {
+        v.reverse();
+    }
+    v
+}
+
+fn observe(t: &TypeInfo, wd: &std::path::Path) -> Result<serde_json::Value, String> {
+    std::env::set_current_dir(wd).map_err(|e| e.to_string())?;
+    hooks::reset_registry();
+    guarded(|| (t.export_all)())?;
+    let tree = files_of(&snapshot(wd));
+    let mut deps = guarded(|| Ok((t.deps)()))?;
+    deps.sort();
+    deps.dedup();
+    Ok(json!({
+        "tree": tree,
+        "dependencies_as_set": deps.iter().map(|(n, p)| format!("{n}@{}", p.display())).collect::<Vec<_>>(),
+        "export_to_string": guarded(|| (t.export_to_string)())?,
+        "decl": guarded(|| Ok((t.decl)()))?,
+        "name": guarded(|| Ok((t.name)()))?,
+    }))
+}
+
+pub fn run(args: &[String]) {
+    let slice = arg_value(args, "--slice").map_or(Slice { i: 0, n: 1 }, |s| Slice::parse(&s));
+    let thorough = args.iter().any(|a| a == "--thorough");
+    let mut rep = Report::new("determ");
+    let mut scratch = Scratch::new("determ");
+    let wd = scratch.fresh();
+    std::env::set_current_dir(&wd).unwrap();
+    std::env::remove_var("TS_RS_EXPORT_DIR");
+    let uni = corpus::u::types();
+    let singles = match universe_singles(&uni) {
+        Ok(s) => s,
+        Err(e) => {
+            rep.machinery_errors.push(e);
+            rep.finish();
+        }
+    };
+
+    // ---- (a) visit order ----------------------------------------------------------------------------
+    let mut subjects: Vec<(String, TypeInfo)> = vec![];
+    for t in corpus::g::roots() {
+        subjects.push((format!("G:{}", t.rust), t));
+    }
+    for u in &uni {
+        subjects.push((format!("U:{}", u.info.rust), u.info.clone()));
+    }
+    for t in corpus::m::types() {
+        subjects.push((format!("M:{}", t.rust), t));
+    }
+    let placement_cfgs: Vec<(&str, Vec<(&str, &str)>)> = vec![
+        ("default", vec![]),
+        ("all-shared", vec![("A", "s.ts"), ("B", "s.ts"), ("C", "s.ts"), ("B2", "s.ts"), ("G", "s.ts"), ("K", "s.ts"), ("Y", "s.ts")]),
+        ("deps-shared", vec![("B", "d/s.ts"), ("C", "d/s.ts"), ("B2", "d/s.ts"), ("G", "d/s.ts"), ("Y", "d/s.ts")]),
+    ];
+    let n_orders = if thorough { 240 } else { 120 };
+    let mut unit = 0;
+    for (label, t) in &subjects {
+        for (pl, places) in &placement_cfgs {
+            if !label.starts_with("G:") && *pl != "default" {
+                continue;
+            }
+            unit += 1;
+            if !slice.mine(unit) {
+                continue;
+            }
+            clear_places();
+            for (k, v) in places {
+                set_place(k, Some(v));
+            }
+            let mut outcomes: BTreeMap<String, Vec<usize>> = BTreeMap::new();
+            let mut max_body = 0usize;
+            for k in 0..n_orders {
+                let seen_n = Arc::new(std::sync::Mutex::new(0usize));
+                let sn = seen_n.clone();
+                hooks::set_visit_order(Some(Arc::new(move |n| {
+                    let mut g = sn.lock().unwrap();
+                    *g = (*g).max(n);
+                    nth_perm(n, k)
+                })));
+                let wd = scratch.fresh();
+                let o = observe(t, &wd);
+                // and once more: running twice must not matter
+                let wd2 = scratch.fresh();
+                let o2 = observe(t, &wd2);
+                hooks::set_visit_order(None);
+                let _ = std::fs::remove_dir_all(&wd);
+                let _ = std::fs::remove_dir_all(&wd2);
+                rep.evaluations += 2;
+                rep.transitions += 2;
+                max_body = max_body.max(*seen_n.lock().unwrap());
+                match (o, o2) {
+                    (Ok(a), Ok(b)) => {
+                        if a != b {
+                            rep.violation(
+                                json!({"check": "second-run-differs", "subject_kind": &label[..1]}),
+                                json!({"subject": label, "placements": pl, "order_index": k, "first": a, "second": b}),
+                            );
+                        }
+                        outcomes.entry(a.to_string()).or_default().push(k);
+                    }
+                    (Err(e), _) | (_, Err(e)) => {
+                        rep.violation(
+                            json!({"check": "export-fails-under-visit-order", "subject_kind": &label[..1]}),
+                            json!({"subject": label, "placements": pl, "order_index": k, "error": e}),
+                        );
+                    }
+                }
+                // bodies of <= 1 statement have a single order
+                if max_body <= 1 && k >= 1 {
+                    break;
+                }
+                if max_body == 2 && k >= 2 || max_body == 3 && k >= 6 || max_body == 4 && k >= 24 {
+                    break;
+                }
+            }
+            rep.count(&format!("subjects_with_max_body_{}", max_body.min(6)), 1);
+            if outcomes.len() > 1 {
+                let mut it = outcomes.iter();
+                let (a, ka) = it.next().unwrap();
+                let (b, kb) = it.next().unwrap();
+                rep.violation(
+                    json!({"check": "visit-order-changes-output", "subject_kind": &label[..1]}),
+                    json!({"subject": label, "placements": pl, "distinct_outcomes": outcomes.len(),
+                           "orders_a": &ka[..ka.len().min(5)], "orders_b": &kb[..kb.len().min(5)],
+                           "outcome_a": serde_json::from_str::<serde_json::Value>(a).unwrap(),
+                           "outcome_b": serde_json::from_str::<serde_json::Value>(b).unwrap()}),
+                );
+            }
+            rep.states += outcomes.len() as u64;
+            rep.distinct.insert(format!("{label}|{pl}"));
+            if rep.samples.len() < 3 && max_body >= 3 {
+                rep.sample(json!({"subject": label, "placements": pl, "largest_visit_body": max_body, "orders_tried": outcomes.values().map(|v| v.len()).sum::<usize>(), "distinct_outcomes": outcomes.len()}));
+            }
+        }
+    }
+    clear_places();
+
+    // ---- (b) order of roots ---------------------------------------------------------------------------
+    let k = if thorough { 4 } else { 3 };
+    for set in subsets(uni.len(), k) {
+        unit += 1;
+        if !slice.mine(unit) {
+            continue;
+        }
+        let mut model = BTreeSet::new();
+        for &t in &set {
+            model.extend(closure_of(&uni, t));
+        }
+        let expected = expected_tree(&uni, &singles, &model, "bindings/");
+        let mut outcomes: BTreeSet<String> = BTreeSet::new();
+        for perm in permutations(k) {
+            for rev in [false, true] {
+                hooks::set_visit_order(Some(Arc::new(move |n| {
+                    let mut v: Vec<usize> = (0..n).collect();
+                    if rev {
+                        v.reverse();
+                    }
+                    v
+                })));
+                let wd = scratch.fresh();
+                std::env::set_current_dir(&wd).unwrap();
+                hooks::reset_registry();
+                let mut err = None;
+                for &j in &perm {
+                    rep.transitions += 1;
+                    if let Err(e) = guarded(|| (uni[set[j]].info.export_all)()) {
+                        err = Some(e);
+                    }
+                }
+                hooks::set_visit_order(None);
+                rep.evaluations += 1;
+                let tree = files_of(&snapshot(&wd));
+                let _ = std::fs::remove_dir_all(&wd);
+                let names: Vec<&str> = perm.iter().map(|&j| uni[set[j]].info.rust).collect();
+                if let Some(e) = err {
+                    rep.violation(json!({"check": "export-fails"}), json!({"order": names, "error": e}));
+                }
+                if tree != expected {
+                    rep.violation(
+                        json!({"check": "root-order-tree-vs-reference"}),
+                        json!({"order": names, "reversed_visits": rev, "got": tree, "expected": expected}),
+                    );
+                }
+                outcomes.insert(serde_json::to_string(&tree).unwrap());
+            }
+        }
+        rep.states += outcomes.len() as u64;
+        rep.count("root_sets", 1);
+        if outcomes.len() != 1 {
+            rep.violation(
+                json!({"check": "root-order-changes-output"}),
+                json!({"set": set.iter().map(|&t| uni[t].info.rust).collect::<Vec<_>>(), "distinct_outcomes": outcomes.len()}),
+            );
+        }
+        rep.distinct.insert(format!("roots{set:?}"));
+    }
+    drop(scratch);
+    rep.finish();
+}
+
+/// Dump every string-returning function of every corpus type and the tree of a full export
+/// (used by the fresh-compilation cross-check).
+pub fn dump(_args: &[String]) {
+    let mut scratch = Scratch::new("dump");
+    let wd = scratch.fresh();
+    std::env::set_current_dir(&wd).unwrap();
+    std::env::remove_var("TS_RS_EXPORT_DIR");
+    clear_places();
+    hooks::reset_registry();
+    let mut out = serde_json::Map::new();
+    let mut all: Vec<TypeInfo> = corpus::m::types();
+    all.extend(corpus::u::types().into_iter().map(|u| u.info));
+    all.extend(corpus::g::others().into_iter().map(|(_, t)| t));
+    for t in &all {
+        let v = json!({
+            "name": guarded(|| Ok((t.name)())),
+            "decl": guarded(|| Ok((t.decl)())),
+            "export_to_string": guarded(|| (t.export_to_string)()),
+        });
+        out.insert(t.rust.to_string(), json!(format!("{v}")));
+        let _ = guarded(|| (t.export_all)());
+    }
+    for t in corpus::g::roots() {
+        let v = json!({
+            "name": guarded(|| Ok((t.name)())),
+            "decl": guarded(|| Ok((t.decl)())),
+            "export_to_string": guarded(|| (t.export_to_string)()),
+        });
+        out.insert(t.rust.to_string(), json!(format!("{v}")));
+    }
+    out.insert("tree".into(), json!(files_of(&snapshot(&wd))));
+    println!("{}", serde_json::Value::Object(out));
+    drop(scratch);
+}
